@@ -341,6 +341,14 @@ def str_method(I, s, name):
             return SBool(z3.PrefixOf(_t(a[0]), t))
         if name == "endswith":
             return SBool(z3.SuffixOf(_t(a[0]), t))
+        if name == "isascii":
+            return SBool(z3.InRe(t, z3.Star(z3.Range(chr(0), chr(127)))))
+        if name == "isdigit" and not byt:
+            # exact inside ASCII ('0'..'9', at least one); the Unicode digit property is left uninterpreted
+            b = I_.ufun("py_isdigit", z3.StringSort(), z3.BoolSort())(t)
+            I_.ctx.assume(SBool(z3.Implies(z3.InRe(t, z3.Star(z3.Range(chr(0), chr(127)))),
+                                           b == z3.InRe(t, z3.Plus(z3.Range("0", "9"))))))
+            return SBool(b)
         if name == "encode":
             enc = (a[0] if a else k.get("encoding", "utf-8")).lower().replace("_", "-")
             if enc in ("utf-8", "utf8"):
@@ -665,7 +673,18 @@ def call_extern(I, fn, args, kwargs):
             return _i.PyList(list(zip(*[I.iterate(a) for a in args])))
         if nm == "range":
             if any(isinstance(a, Sym) for a in args):
-                raise Outside("symbolic range")
+                # a symbolic bound that the path confines to a few small values: case split
+                conc = []
+                for a in args:
+                    if isinstance(a, SInt):
+                        for v in range(0, 9):
+                            if I.ctx.branch(SBool(a.t == v)):
+                                a = v
+                                break
+                        else:
+                            raise Outside("symbolic range")
+                    conc.append(a)
+                args = conc
             return _i.PyList(list(range(*args)))
         if nm == "next":
             v = args[0]
